@@ -355,6 +355,19 @@ fn gen(g: &mut G, thorough: bool) -> Plan {
                     let mut w = head.into_bytes();
                     w.extend_from_slice(&z);
                     let start = w.len();
+                    // (no draw) what follows without end is filler - or, every second time, more streams of the
+                    // same coding, each of them complete and empty (a gzip body may be a series of members)
+                    if (start + label.len()) % 2 == 0 {
+                        let empty: Vec<u8> = if label == "gzip" {
+                            flate2::write::GzEncoder::new(Vec::new(), flate2::Compression::default()).finish().unwrap()
+                        } else {
+                            flate2::write::DeflateEncoder::new(Vec::new(), flate2::Compression::default()).finish().unwrap()
+                        };
+                        while w.len() < total.max(1 << 20) {
+                            w.extend_from_slice(&empty);
+                        }
+                        g.probe("endless-empty-coded-streams-after-the-first");
+                    }
                     w.resize(total.max(1 << 20), b'x');
                     bound = Some((start, 64 * 1024, "chunk-like:data-after-the-compressed-stream-without-end"));
                     g.probe("endless-data-after-a-compressed-stream");
